@@ -315,7 +315,7 @@ static const int kind_index[] = { -1, 0, 1, 2, 3, 4, 5, 6, 7, 8, 9, 10, 11, 12, 
 
 static cfg_t root;
 static cfg_opt_t *O; /* the option the step acts on */
-static cfg_searchpath_t *the_path;
+static cfg_searchpath_t *the_path, *older_path;
 
 /* observable snapshot of O before the step */
 static unsigned pre_nvalues;
@@ -525,7 +525,7 @@ static void verif_step(cfg_t *cfg, int level, int force_state, struct pstate *ps
 #endif
 		/* pending annotation */
 		*ps->comment = NULL;
-#if (CTXF & CFGF_COMMENTS) && PSTATE <= 3
+#if (CTXF & CFGF_COMMENTS) && (PSTATE <= 3 || PSTATE == 10)
 		{
 			V_IN_BOOL(vin_has_pending);
 			if (vin_has_pending) {
@@ -646,6 +646,22 @@ int main(void)
 	if (O->type == CFGT_SEC)
 		for (i = 0; i < NV; i++)
 			O->values[i]->section->path = the_path;
+#endif
+#if WITH_PATH == 3
+	/* a directory was added AFTER the instances were entered: they borrow the older head of the list */
+	if (O->type == CFGT_SEC)
+		for (i = 0; i < NV; i++)
+			O->values[i]->section->path = the_path;
+	{
+		cfg_searchpath_t *head = malloc(sizeof(cfg_searchpath_t));
+
+		V_ASSUME(head != NULL);
+		head->dir = heap_str("e");
+		head->next = the_path;
+		root.path = head;
+		older_path = the_path;
+		the_path = head;
+	}
 #endif
 #endif
 	/* existing annotation on the option */
